@@ -44,3 +44,54 @@ Theorem C11_proof_bound_to_challenge :
      (xi' - xi) * (c - vk_g (mvk_vk vk) * v) * vk_h (mvk_vk vk) = 0).
 Proof. exact @other_challenge. Qed.
 Print Assumptions C11_proof_bound_to_challenge.
+
+(* Sonic: the verifier accepts the honest proof and ends on exactly the prover's tape position *)
+From PC Require Import Schemes.Sonic Proofs.SonicKeys.
+Theorem C11_sonic_lockstep :
+  forall (FO : FieldOps) (FL : FieldLaws FO) D beta g gam h up s sh bounds ck vk lps rng csts nd z chal pf rest,
+    setup D true beta g gam h = Ok up -> strim up s sh bounds = Ok (ck, vk) -> beta <> 0 ->
+    s_commit_all ck lps rng = Ok (csts, nd) ->
+    s_open ck (combine lps (map snd csts)) z chal = Ok (pf, rest) ->
+    s_check vk (combine (map fst csts) (map lp_bound lps)) z (map (fun lp => eval (lp_poly lp) z) lps) pf chal = Ok (true, rest).
+Proof. exact @sonic_complete. Qed.
+Print Assumptions C11_sonic_lockstep.
+
+(* IPA: both the sponge tape and the hash-derived round challenges end at the same positions on both sides *)
+From PC Require Import Schemes.LC Schemes.IPA Proofs.IPAFacts Proofs.IPAComplete.
+Theorem C11_ipa_lockstep :
+  forall (FO : FieldOps) (FL : FieldLaws FO) D s d items z chal hchal rng pf rest hrest nd,
+    itrim D s = Ok d ->
+    Forall (honest d) items ->
+    Forall (fun rc => rc <> 0) hchal ->
+    i_open d items z chal hchal rng = Ok (pf, rest, hrest, nd) ->
+    i_check d (cs_of items) z (vs_of z items) pf chal hchal = Ok (true, rest, hrest).
+Proof. exact @ipa_complete_trimmed. Qed.
+Print Assumptions C11_ipa_lockstep.
+
+(* linear codes (Ligero, Brakedown) on the shared transcript: prover and verifier each take, per polynomial, one field squeeze
+   when the well-formedness check is on and then exactly t byte squeezes - whatever the proof and the claimed value are; the
+   honest list-level and batch-level runs end on the same transcript position *)
+From PC Require Import Base.OrdMap Schemes.CalcT Schemes.Ligero Schemes.DefaultBatch Proofs.DefaultBatchComplete Schemes.LinCodeList Proofs.LinCodeListFacts.
+Theorem C11_lincode_verifier_consumes :
+  forall (FO : FieldOps) tensor wf cm pt value pf tape res rest t,
+    cm_t cm = Ok t -> lc_check_one tensor wf cm pt value pf tape = Ok (res, rest) ->
+    exists r bs, tape = consumed wf r bs ++ rest /\ length bs = t.
+Proof. exact @lc_check_one_consumes. Qed.
+Print Assumptions C11_lincode_verifier_consumes.
+
+Theorem C11_lincode_prover_consumes :
+  forall (FO : FieldOps) tensor wf cm rows pt tape pf rest t,
+    cm_t cm = Ok t -> lc_open_one tensor wf cm rows pt tape = Ok (pf, rest) ->
+    exists r bs, tape = consumed wf r bs ++ rest /\ length bs = t.
+Proof. exact @lc_open_one_consumes. Qed.
+Print Assumptions C11_lincode_prover_consumes.
+
+Theorem C11_lincode_batch_lockstep :
+  forall (FO : FieldOps) (FL : FieldLaws FO) tensor wf items cs qs ev tape pfs rest,
+    maps_agree LCm (LCm * list (list F)) R_lc (label_map items) (label_map cs) ->
+    (forall pl pt labels, In (pl, (pt, labels)) (groups qs) ->
+       evals_true (LCm * list (list F)) (fun it pt => lc_value tensor pt it) (label_map items) ev pt labels) ->
+    default_batch_open (LCm * list (list F)) (list LProof) (list sq_ev) (lc_open_list tensor wf) items qs tape = Ok (pfs, rest) ->
+    default_batch_check LCm (list LProof) (list sq_ev) (lc_check_list tensor wf) cs qs ev pfs tape = Ok (true, rest).
+Proof. exact @lc_batch_complete. Qed.
+Print Assumptions C11_lincode_batch_lockstep.
